@@ -253,7 +253,7 @@ fn offsets() -> impl Strategy<Value = i64> {
 }
 
 pub fn run(c: &Ctx) {
-    c.set_rule("(a) every single-path call form of the Memfs alphabet (52 forms: all trait methods, builder variants, handles) on every string over a 22-symbol adversarial alphabet (incl. 'İ' and the Kelvin sign, whose lower-case forms have another byte length, and an upper-case letter) ('/', '.', '~', '$', ':', '{', '}', space, a, 2/3/4-byte chars, newline, NUL, '-', '%', '*', backslash, quote) up to length 2 (quick) / 3 (thorough), from a fresh and from a populated instance (links, loop link, dangling link, non-UTF-8 bytes, cwd below root); two-path forms on all pairs of strings up to length 1 plus specials; seeded random arguments (<=64 symbols, 4 KiB names, 2000-deep '..' chains, any u32 mode / id). After EVERY call: no panic, call returned (CPU watchdog), C03 invariants on the dump, and a probe sequence on the same instance (mkdir_p, write_all, read_all, remove_all, exists) succeeds. (b) every public path helper, StringExt/ToStringExt/IteratorExt/PeekableExt/OptionExt function and user:: getter on the same strings (totality only). (c) read handles driven by seek/read scripts with extreme offsets. (d) every program of length 4 (quick) / 5 (thorough) over 15 forms {open write/append handle, write, flush, drop, remove / remove_all / move_p / replace-by-directory / replace-by-link of the handle's file, set_cwd} on the populated instance: handles that outlive their file must neither panic nor hang nor wedge the instance (probe after every step and after the final drops). (e) every call form at the top, middle and bottom of a 60-level directory chain (deeper than the traversal's descriptor cap) that ends in an empty directory and a file. (f) every call form, plus recursive chmod_b with widening / narrowing / symbolic modes with and without follow, on a bushy tree (directories with several non-empty sub-directories of mode 0o500, a link between them and two links into each other's directory). Non-trivial = argument with a multi-byte character or >=2 special symbols; distinct by (function, argument).");
+    c.set_rule("(a) every single-path call form of the Memfs alphabet (52 forms: all trait methods, builder variants, handles) on every string over a 22-symbol adversarial alphabet (incl. 'İ' and the Kelvin sign, whose lower-case forms have another byte length, and an upper-case letter) ('/', '.', '~', '$', ':', '{', '}', space, a, 2/3/4-byte chars, newline, NUL, '-', '%', '*', backslash, quote) up to length 2 (quick) / 3 (thorough), from a fresh and from a populated instance (links, loop link, dangling link, non-UTF-8 bytes, cwd below root); two-path forms on all pairs of strings up to length 1 plus specials; seeded random arguments (<=64 symbols, 4 KiB names, 2000-deep '..' chains, any u32 mode / id). After EVERY call: no panic, call returned (CPU watchdog), C03 invariants on the dump, and a probe sequence on the same instance (mkdir_p, write_all, read_all, remove_all, exists) succeeds. (b) every public path helper, StringExt/ToStringExt/IteratorExt/PeekableExt/OptionExt function and user:: getter on the same strings (totality only). (c) read handles driven by seek/read scripts with extreme offsets. (d) every program of length 4 (quick) / 5 (thorough) over 15 forms {open write/append handle, write, flush, drop, remove / remove_all / move_p / replace-by-directory / replace-by-link of the handle's file, set_cwd} on the populated instance: handles that outlive their file must neither panic nor hang nor wedge the instance (probe after every step and after the final drops). (e) every call form at the top, middle and bottom of a 60-level directory chain (deeper than the traversal's descriptor cap) that ends in an empty directory and a file. (f) every call form, plus recursive chmod_b with widening / narrowing / symbolic modes with and without follow, on a bushy tree (directories with several non-empty sub-directories of mode 0o500, a link between them and two links into each other's directory). (g) 2 / 6 rounds in which one thread renders the instance (Display, Debug, clone + query) 1500 times while another keeps creating and removing entries: nobody waits for good. Non-trivial = argument with a multi-byte character or >=2 special symbols; distinct by (function, argument).");
     c.assume("non-UTF-8 OsStr paths are outside the stated domain");
     let max_len = c.tier.pick(2, 3);
     let mut strings = all_strings(ALPHA, max_len);
@@ -477,6 +477,51 @@ pub fn run(c: &Ctx) {
             c.class("bushy-tree:several-non-empty-subdirectories");
             c.judge("fs", &json!({"populated": false, "ops": ops}), check_fs(&FsCase { populated: false, ops: ops.clone() }));
         });
+    }
+    // (g) rendering the instance (Display / Debug / clone) while another thread keeps changing it: neither side may
+    // end up waiting for the other for good (a rendering that re-enters the lock per entry does, as soon as a writer
+    // queues in between). The calling thread is registered with the watchdog; a dead-locked round is reported.
+    {
+        worker_enter();
+        for round in 0..c.tier.pick(2u32, 6) {
+            mark("fs", &json!({"populated": true, "ops": [format!("render-while-writing round {}", round)]}).to_string());
+            let m = Memfs::new();
+            populate(&m);
+            let stop = std::sync::atomic::AtomicBool::new(false);
+            std::thread::scope(|sc| {
+                let (m1, m2, stop) = (&m, &m, &stop);
+                sc.spawn(move || {
+                    let mut i = 0usize;
+                    while !stop.load(std::sync::atomic::Ordering::Relaxed) {
+                        let _ = m1.mkdir_p(format!("/busy/d{}", i % 7));
+                        let _ = m1.write_all(format!("/busy/d{}/f", i % 7), b"x");
+                        let _ = m1.symlink(format!("/busy/l{}", i % 5), "/a");
+                        let _ = m1.remove_all("/busy");
+                        i += 1;
+                    }
+                });
+                let r = sc.spawn(move || {
+                    let mut total = 0usize;
+                    for _ in 0..1500 {
+                        total += format!("{}", m2).len();
+                        total += format!("{:?}", m2).len();
+                        total += m2.clone().exists("/a") as usize;
+                    }
+                    total
+                });
+                let _ = r.join();
+                stop.store(true, std::sync::atomic::Ordering::Relaxed);
+            });
+            c.eval(1);
+            c.nontrivial(fp(&("render-while-writing", round)));
+            c.class("render-while-writing");
+            let res = match probe(&m) {
+                Ok(()) => Ok(()),
+                Err(w) => Err(Failure::new(format!("render|unusable-afterwards|{}", w.split(':').take(2).collect::<Vec<_>>().join(":")), w)),
+            };
+            c.judge("fs", &json!({"populated": true, "ops": []}), res);
+        }
+        worker_exit();
     }
     run_proptest("helpers", 1202, || (string_over(ADVERSARIAL, 40), string_over(ADVERSARIAL, 12)), cases, |(s, t): &(String, String)| {
         mark("helpers", s);
